@@ -5,6 +5,7 @@ mod tagcases;
 mod cmdcases;
 mod conncases;
 mod framecases;
+mod typedcases;
 
 use std::io::{BufRead, Write};
 
@@ -36,6 +37,7 @@ fn dispatch(toks: &[&str]) -> String {
         "cmd_build" | "cmd_args" | "cmd_list" | "escape" => cmdcases::run(toks),
         "recv" | "conn" => conncases::run(toks),
         "frame" | "resp" => framecases::run(toks),
+        "typed" | "typedlist" => typedcases::run(toks),
         other => format!("unknown-kind {}", other),
     }
 }
